@@ -642,16 +642,29 @@ def variant_event(rng, p_int=0.07, p_fresh=0.07, skip=()):
     return ev
 
 
+_TIMEOUTS = [0]
+
+
 def event(fn, args, site=None, feat=None, timeout=30):
     """Run one real call; exceptions raised by the library are recorded (a call that raises returns
     nothing the specification can accept)."""
     call = {"fn": fn, "args": args}
     try:
+        if _TIMEOUTS[0] >= 3:
+            # this process has already recorded several calls that did not return (a change that makes the library
+            # hang): the remaining calls get a short budget so that the run ends and the time-outs are reported
+            timeout = min(timeout, 10)
         try:
             e = guarded(lambda: FUNCS[fn](args), timeout)
         except CallTimeout:
+            if _TIMEOUTS[0] >= 3:
+                raise
             # a slow machine must not look like a hanging library: one more attempt with four times the budget
-            e = guarded(lambda: FUNCS[fn](args), 4 * timeout)
+            try:
+                e = guarded(lambda: FUNCS[fn](args), 4 * timeout)
+            except CallTimeout:
+                _TIMEOUTS[0] += 1
+                raise
     except OutOfModelRange:
         e = {"op": fn, "skip": "numeric-range"}      # (a weight beyond the model's number range: counted, not judged)
     except MachineryError:
